@@ -260,7 +260,7 @@ func genStressCase(t *rapid.T) stressCase {
 		for j := 0; j < n; j++ {
 			l := fmt.Sprintf("g%do%d", i, j)
 			sc = append(sc, readerOp{
-				Kind: rapid.SampledFrom([]int{2, 0, 1, 3, 4, 5, 6, 7, 8, 3, 2, 9, 10, 9}).Draw(t, l+"k"),
+				Kind: rapid.SampledFrom([]int{2, 0, 1, 3, 4, 5, 6, 7, 8, 3, 2, 9, 10, 9, 11, 0}).Draw(t, l+"k"),
 				A:    rapid.IntRange(0, 15).Draw(t, l+"a"),
 				B:    rapid.IntRange(0, 15).Draw(t, l+"b"),
 			})
@@ -555,6 +555,10 @@ func runReaderOp(prop string, seg, other segment.Segment, want, wantOther *spec.
 				break
 			}
 		}
+	case 11: // the segment's memory accounting, as an index does for every new snapshot
+		// (only called: the value is an accounting figure no property speaks about - for an opened
+		// file it can even be negative; what matters is that calling it concurrently is safe)
+		_ = seg.Size()
 	case 8: // use the shared segment as a merge input
 		path := drive.NewPath("c11merge")
 		drops := []*roaring.Bitmap{nil, nil}
